@@ -11,6 +11,7 @@
   the Lean `World` model.  Everything Wheatley emits, and every call its Bot makes on the rhythm
   object, is recorded with the virtual time: that is the output compared with the model.
 """
+import copy
 import heapq
 import threading
 import time as _time
@@ -102,7 +103,7 @@ def msg_to_socket(m):
     if k == "setting":
         return "s_wheatley_setting", {kv[0]: kv[1] for kv in m["kvs"]}
     if k == "row_gen":
-        return "s_wheatley_row_gen", m["json"]
+        return "s_wheatley_row_gen", copy.deepcopy(m["json"])       # (each delivery is a fresh object, as off the wire)
     if k == "stop_touch":
         return "s_wheatley_stop_touch", {}
     raise ValueError(k)
@@ -439,6 +440,30 @@ class Sim:
             raise ValueError(kind)
 
 
+def complib_route(cfg):
+    """A CompLib that holds one composition: `GET .../composition/<id>/rows[?accessKey=..&substitutedmethodid=..]`.
+    A private composition (cfg["key"]) is served only with its access key (403 otherwise), an unknown id is 404,
+    and a substituted method selects the payload listed for it."""
+    from urllib.parse import urlparse, parse_qs
+
+    def route(url, params):
+        if "complib" not in url:
+            return None
+        u = urlparse(url)
+        segs = [x for x in u.path.split("/") if x]
+        if len(segs) < 2 or segs[0] != "composition" or segs[1] != str(cfg["id"]):
+            return implrun.FakeResponse("not found", 404)
+        q = {k: v[-1] for k, v in parse_qs(u.query, keep_blank_values=True).items()}
+        q.update(params or {})
+        if cfg.get("key") is not None and q.get("accessKey") != cfg["key"]:
+            return implrun.FakeResponse("forbidden", 403)
+        sub = q.get("substitutedmethodid")
+        if sub is not None and str(sub) in cfg.get("subst", {}):
+            return implrun.FakeResponse(cfg["subst"][str(sub)])
+        return implrun.FakeResponse(cfg["text"])
+    return route
+
+
 def run(scenario, make_agents=None):
     """Run one session.  Returns the record (inputs for the model + observed outputs)."""
     sim = Sim(scenario)
@@ -460,13 +485,17 @@ def run(scenario, make_agents=None):
     _time.sleep = sim.sleep
     wtower.sleep = sim.sleep
     wreg.calculate_regression = rec_reg
+    unhook_log = _install_logging(sc)
     unhook = _install_preemption(sim, sc.get("preempt"))
+    saved_routes = implrun.HTTP.routes
     try:
         if sc.get("argv"):
             crashed, exited = _run_main(sim, sc)
             return {"sim": sim, "crashed": crashed, "exited": exited}
         bot_cfg = sc["bot"]
         gen = implrun.build_gen(bot_cfg["gen"])
+        if sc.get("complib"):
+            implrun.HTTP.routes = [complib_route(sc["complib"])]
         rh = sc["rhythm"]
         if rh["kind"] == "stub":
             rhythm = StubRhythm(core.bits_to_float(rh["w"]))
@@ -497,6 +526,8 @@ def run(scenario, make_agents=None):
     finally:
         sim.abort_handlers()
         unhook()
+        unhook_log()
+        implrun.HTTP.routes = saved_routes
         _time.time, _time.sleep, wtower.sleep, wreg.calculate_regression = saved
         fake_socketio.set_factory(None)
     return {"sim": sim, "crashed": crashed, "exited": exited}
@@ -536,6 +567,43 @@ def _install_preemption(sim, spec):
         root.removeHandler(sink)
         root.setLevel(prev_level)
         logging.disable(prev_disable)
+    return unhook
+
+
+def _install_logging(sc):
+    """Wheatley's verbosity is part of its configuration (`-v`, `-q`): a session with sc["log_level"] runs with the
+    log switched on at that level, the records formatted and thrown away.  (Otherwise logging is disabled
+    altogether, as harness.implrun leaves it.)  A session through `main(argv)` sets the levels itself."""
+    level = sc.get("log_level")
+    if not level:
+        return lambda: None
+    import logging
+
+    class Sink(logging.Handler):
+        def emit(self, record):
+            record.getMessage()
+    root = logging.getLogger()
+    prev = (logging.root.manager.disable, root.level, list(root.handlers))
+    named = [lg for lg in logging.root.manager.loggerDict.values() if isinstance(lg, logging.Logger)]
+    logging.disable(logging.NOTSET)
+    for h in prev[2]:
+        root.removeHandler(h)
+    root.addHandler(Sink(level=logging.DEBUG))
+    if not sc.get("argv"):
+        root.setLevel(getattr(logging, level))
+        for lg in named:
+            lg.setLevel(logging.NOTSET)
+
+    def unhook():
+        for h in list(root.handlers):
+            root.removeHandler(h)
+        for h in prev[2]:
+            root.addHandler(h)
+        root.setLevel(prev[1])
+        for lg in logging.root.manager.loggerDict.values():
+            if isinstance(lg, logging.Logger):
+                lg.setLevel(logging.NOTSET)
+        logging.disable(prev[0])
     return unhook
 
 
